@@ -10,6 +10,7 @@ import (
 	"go/parser"
 	"go/printer"
 	"go/token"
+	"pigeonverif/internal/astinline"
 	"sort"
 	"strings"
 )
@@ -412,6 +413,7 @@ func Specialise(src string, cfg *Config) (*ast.File, error) {
 	if err != nil {
 		return nil, err
 	}
+	astinline.Accessors(f)
 	for _, d := range f.Decls {
 		switch x := d.(type) {
 		case *ast.FuncDecl:
@@ -443,6 +445,7 @@ func Plain(src string) (*ast.File, error) {
 	if err != nil {
 		return nil, err
 	}
+	astinline.Accessors(f)
 	for _, d := range f.Decls {
 		switch x := d.(type) {
 		case *ast.FuncDecl:
